@@ -53,6 +53,9 @@ func lookupModel(fn *ssa.Function) modelFn {
 	switch {
 	case pkg == "github.com/sirupsen/logrus":
 		return mark(modelNoEffect)
+	case pkg == "time" && name != "time.Now":
+		// package time: no effect on the program's heap; results are deterministic uninterpreted functions of the arguments
+		return mark(modelPureUF)
 	case name == "fmt.Errorf" || name == "errors.New":
 		return mark(func(e *Engine, st *State, fr *Frame, fn *ssa.Function, args []Val, in ssa.Instruction) (Val, bool) {
 			return freshError(st), true
@@ -181,3 +184,29 @@ func modelBytesEqual(e *Engine, st *State, fr *Frame, fn *ssa.Function, args []V
 }
 
 var _ = fmt.Sprintf
+
+// modelPureUF: a library function without heap effects whose scalar results are uninterpreted functions of its arguments.
+func modelPureUF(e *Engine, st *State, fr *Frame, fn *ssa.Function, args []Val, in ssa.Instruction) (Val, bool) {
+	sig := fn.Signature
+	if sig.Results().Len() == 0 {
+		return Val{sig.Results(), nil}, true
+	}
+	var as []*Term
+	for _, a := range args {
+		as = append(as, a.L...)
+	}
+	RT := tupleOf(sig)
+	ss := leafSorts(RT)
+	L := make([]*Term, len(ss))
+	for i, srt := range ss {
+		L[i] = App(fmt.Sprintf("lib!%s#%d", fn.String(), i), srt, as...)
+	}
+	v := Val{RT, L}
+	for i, k := range leafKinds(RT) {
+		if k == lkRef || k == lkPl {
+			st.assume(Ult(L[i], BVConst(freshRefBase, 64)))
+		}
+	}
+	st.assumeSliceWF(v)
+	return v, true
+}
